@@ -5,8 +5,10 @@ import (
 	"bytes"
 	"compress/gzip"
 	"context"
+	"crypto/sha256"
 	"database/sql"
 	"encoding/base64"
+	"encoding/hex"
 	"encoding/json"
 	"fmt"
 	"io"
@@ -100,6 +102,9 @@ type spRoundTrip struct {
 	ID    int               `json:"id"`
 	Files map[string]string `json:"files"` // name -> content (base64)
 	Tree  bool              `json:"tree"`  // also lay the files out on disk / in an fs.FS and use ArchiveDir / ArchiveFS
+	// Writes is how many times the same file set is archived in this process (from maps filled in
+	// different orders); every archive must be byte-equal to the first. 0 means 2.
+	Writes int `json:"writes"`
 }
 
 type spInput struct {
@@ -137,6 +142,9 @@ type spRTResult struct {
 	ID       int      `json:"id"`
 	Problems []string `json:"problems"`
 	Bytes    int      `json:"bytes"`
+	Hash     string   `json:"hash"`      // SHA-256 of the first archive (compared across processes by the check)
+	TreeHash string   `json:"tree_hash"` // same for ArchiveDir
+	Distinct int      `json:"distinct"`  // number of different byte strings among the writes
 }
 
 type spOutput struct {
@@ -521,20 +529,40 @@ func runSourcePath(raw json.RawMessage) (any, error) {
 				names = append(names, n)
 			}
 			sort.Strings(names)
-			var b1, b2 bytes.Buffer
+			var b1 bytes.Buffer
 			if err := sourcefs.WriteArchive(&b1, files); err != nil {
 				r.Problems = append(r.Problems, "WriteArchive: "+err.Error())
 				return
 			}
-			// a second map, filled in the opposite order
-			files2 := map[string][]byte{}
-			for i := len(names) - 1; i >= 0; i-- {
-				files2[names[i]] = append([]byte(nil), files[names[i]]...)
-			}
-			_ = sourcefs.WriteArchive(&b2, files2)
 			r.Bytes = b1.Len()
-			if !bytes.Equal(b1.Bytes(), b2.Bytes()) {
-				r.Problems = append(r.Problems, "two writes of the same files differ")
+			sum := sha256.Sum256(b1.Bytes())
+			r.Hash = hex.EncodeToString(sum[:])
+			writes := rt.Writes
+			if writes < 2 {
+				writes = 2
+			}
+			seen := map[string]bool{r.Hash: true}
+			for w := 1; w < writes; w++ {
+				// a fresh map every time, filled in a different order (rotated, every other time reversed)
+				files2 := map[string][]byte{}
+				for i := range names {
+					k := (i + w) % len(names)
+					if w%2 == 1 {
+						k = len(names) - 1 - k
+					}
+					files2[names[k]] = append([]byte(nil), files[names[k]]...)
+				}
+				var b2 bytes.Buffer
+				if err := sourcefs.WriteArchive(&b2, files2); err != nil {
+					r.Problems = append(r.Problems, "WriteArchive: "+err.Error())
+					return
+				}
+				s2 := sha256.Sum256(b2.Bytes())
+				seen[hex.EncodeToString(s2[:])] = true
+			}
+			r.Distinct = len(seen)
+			if len(seen) > 1 {
+				r.Problems = append(r.Problems, fmt.Sprintf("%d writes of the same files differ (%d different archives)", writes, len(seen)))
 			}
 			back, err := sourcefs.ReadArchive(b1.Bytes())
 			if err != nil {
@@ -562,9 +590,14 @@ func runSourcePath(raw json.RawMessage) (any, error) {
 					r.Problems = append(r.Problems, "ArchiveDir: "+err.Error())
 					return
 				}
-				d2, _ := sourcefs.ArchiveDir(dir)
-				if !bytes.Equal(d1, d2) {
-					r.Problems = append(r.Problems, "two ArchiveDir runs over the same tree differ")
+				ts := sha256.Sum256(d1)
+				r.TreeHash = hex.EncodeToString(ts[:])
+				for w := 1; w < writes; w++ {
+					d2, _ := sourcefs.ArchiveDir(dir)
+					if !bytes.Equal(d1, d2) {
+						r.Problems = append(r.Problems, "ArchiveDir runs over the same tree differ")
+						break
+					}
 				}
 				f1, err := sourcefs.ArchiveFS(mfs)
 				if err != nil {
